@@ -37,7 +37,39 @@ type tokens struct {
 	uns    map[string]interface{} // u1, u2
 }
 
+// values with a character outside the BMP (in a string or in a member name); their tamper partner is the same
+// text with that character in an ill-formed escape spelling
+var astralValues = []string{`"ok 😀"`, `"😀"`, `"\ud800\udc00 first"`, `"last \udbff\udfff"`, `{"body":"ok 😀","n":1}`, `{"k😀":1,"a":[]}`,
+	`["x","💩"]`, `{"😀":{"😀":"😀"}}`, `"a😀b😀"`}
+
 func pickPair(rng *rand.Rand) (interface{}, interface{}) {
+	if rng.Intn(6) == 0 {
+		// a genuine character and an ill-formed spelling sharing its low bits: different values, either may be
+		// the one that is signed
+		var a interface{} = mustParse(astralValues[rng.Intn(len(astralValues))])
+		t, ok := tamperSurrogate(a, rng)
+		if !ok {
+			panic("harness: astralValues entry without a character outside the BMP")
+		}
+		var b interface{} = t
+		if rng.Intn(2) == 0 {
+			a, b = b, a
+		}
+		return a, b
+	}
+	if rng.Intn(8) == 0 {
+		// a value and the same text with a lone surrogate escape put into one of its strings
+		for {
+			var a interface{} = mustParse(valuePool[rng.Intn(len(valuePool))])
+			if t, ok := tamperLone(a, rng); ok {
+				var b interface{} = t
+				if rng.Intn(2) == 0 {
+					a, b = b, a
+				}
+				return a, b
+			}
+		}
+	}
 	if rng.Intn(2) == 0 {
 		p := valuePairs[rng.Intn(len(valuePairs))]
 		a, b := mustParse(p[0]), mustParse(p[1])
@@ -66,8 +98,15 @@ func newTokens(rng *rand.Rand, members []string) *tokens {
 			sh := nestedShapes[rng.Intn(len(nestedShapes))]
 			v1, v2 := pickPair(rng)
 			t.nested["c/d0"] = mustParse(sh.without)
-			t.nested["c/d1"] = mustParse(fmt.Sprintf(sh.with, canonical(v1)))
-			t.nested["c/d2"] = mustParse(fmt.Sprintf(sh.with, canonical(v2)))
+			for tok, v := range map[string]interface{}{"c/d1": v1, "c/d2": v2} {
+				text := fmt.Sprintf(sh.with, canonical(v))
+				if r, raw := v.(rawText); raw {
+					mustParse(text)
+					t.nested[tok] = rawText{text: text, lone: r.lone} // the whole nested member is carried as written
+				} else {
+					t.nested[tok] = mustParse(text)
+				}
+			}
 			continue
 		}
 		v1, v2 := pickPair(rng)
@@ -136,6 +175,13 @@ func c02Replay(seed int64, raw json.RawMessage) hx.Result {
 	tk := newTokens(rng, []string{"a", "b", "c"})
 
 	d := &document{top: map[string]interface{}{}, pres: r.Start.Pres}
+	for _, pool := range []map[string]interface{}{tk.plain, tk.nested} {
+		for _, v := range pool {
+			if x, ok := v.(rawText); ok && x.lone {
+				d.loneInvolved = true
+			}
+		}
+	}
 	for m, tok := range r.Start.Obj {
 		switch {
 		case tok == "absent":
@@ -163,6 +209,7 @@ func c02Replay(seed int64, raw json.RawMessage) hx.Result {
 	last := "none"
 	signedHow := map[string]string{} // "E|K" -> Sign / ForeignSign of the latest signature in that slot
 	signedKey := map[string]string{}
+	undefined := map[string]bool{} // "E|K" -> signed by ForeignSign while a member was an ill-formed text
 	for n, a := range r.Hist {
 		last = a[0]
 		switch a[0] {
@@ -172,7 +219,11 @@ func c02Replay(seed int64, raw json.RawMessage) hx.Result {
 					Extra: map[string]interface{}{"entities": w.ent, "keyids": w.kid}}
 			}
 			signedHow[a[1]+"|"+a[2]], signedKey[a[1]+"|"+a[2]] = "Sign", a[3]
+			undefined[a[1]+"|"+a[2]] = false
 		case "ForeignSign":
+			// another implementation's canonical form of an ill-formed text is anybody's guess: what it signs
+			// then is not compared (the slot is left out of the matrix until it is signed again)
+			undefined[a[1]+"|"+a[2]] = hasRaw(d.top) && a[3] != "junk"
 			d.foreignSign(w.ent[a[1]], w.kid[a[2]], w.priv[a[3]], rng.Intn(4) == 0, rng)
 			signedHow[a[1]+"|"+a[2]], signedKey[a[1]+"|"+a[2]] = "ForeignSign", a[3]
 		case "Mutate", "Insert", "NestedEdit":
@@ -224,6 +275,9 @@ func c02Replay(seed int64, raw json.RawMessage) hx.Result {
 	for _, k := range wantL {
 		if !got[k] {
 			slot := k[:strings.LastIndex(k, "|")]
+			if undefined[slot] {
+				continue
+			}
 			return hx.Result{OK: false,
 				Key:  d.key(fmt.Sprintf("incomplete/after=%s/pres=%s/signed-by=%s", last, d.pres, signedHow[slot])),
 				What: fmt.Sprintf("%s must verify after %s but VerifyJSON says %q", k, opLetters(r.Hist), obs.Errs[k]),
@@ -233,6 +287,9 @@ func c02Replay(seed int64, raw json.RawMessage) hx.Result {
 	for _, k := range gotL {
 		if !want[k] {
 			slot := k[:strings.LastIndex(k, "|")]
+			if undefined[slot] {
+				continue
+			}
 			why := "tampered"
 			if _, ok := signedKey[slot]; !ok {
 				why = "never-signed"
